@@ -52,7 +52,7 @@ var fieldValues = map[string][]string{
 	"X-A":                 {"1", "2", "1X-B2", "", "a, b", "b, a", "1 ", "é", "caf\xe9", "caf\xe8"},
 	"X-B":                 {"2", "1", "", "x"},
 	"Content-Language":    {"en, fr", "fr,en", "fr ,  en", "en", "EN", "en, fr, en"},
-	"User-Agent":          {"Go-Client/1", "go-client/1", "GO-CLIENT/1", "other"},
+	"User-Agent":          {"Go-Client/1", "go-client/1", "GO-CLIENT/1", "other", "caf\xe9/1.0", "caf\xe8/1.0", "CAF\xe9/1.0"},
 	"Authorization":       {"Basic abc", "BASIC abc", "basic abc", "Basic ABC", "Bearer t"},
 	"If-Unmodified-Since": {"Sat, 01 Jan 2000 00:00:00 GMT", " Sat, 01 Jan 2000 00:00:00 GMT ", "Sun, 02 Jan 2000 00:00:00 GMT"},
 }
@@ -379,7 +379,7 @@ func (g *G) classes() []genClass {
 	case "C03":
 		return []genClass{{8, urls}, {2, inval}}
 	case "C04":
-		return []genClass{{8, vary}, {1, faults}, {1, backends}}
+		return []genClass{{8, vary}, {1, faults}, {1, backends}, {1, func(g *G, id string) *History { return g.genCollide(id) }}}
 	case "C07":
 		return []genClass{{7, inval}, {2, urls}, {2, func(g *G, id string) *History { return g.genInvalRace(id) }}}
 	case "C08":
@@ -396,6 +396,39 @@ func (g *G) classes() []genClass {
 		return []genClass{{4, urls}, {3, vary}, {3, backends}, {2, chain}}
 	}
 	return []genClass{{1, grid}}
+}
+
+// collidingValues: pairs of header values whose variant descriptions ("3:X-A16:<value>") have the same
+// 64-bit FNV-1a hash, hence the same entry key. Found by a distinguished-point search (42 s on 16 cores);
+// a 64-bit identifier cannot be collision-free, so what the index does with two references that share an
+// identifier is part of the property.
+var collidingValues = map[string][2]string{
+	"X-A": {"cf64c0a33b0b080a", "94d63610ceb73809"},
+	"X-V": {"2164f37f9e8cb95b", "b2fbb6d007fa538d"},
+}
+
+// genCollide: two variants whose identifiers collide, then each of them again, in some order
+func (g *G) genCollide(id string) *History {
+	h := &History{ID: id, Prop: g.prop, Class: "collide", Backend: pick(g, "mem", "fs", "fsenc"), Logger: "discard"}
+	f := pick(g, "X-A", "X-V")
+	pair := collidingValues[f]
+	url := "http://a.test/collide"
+	at := int64(0)
+	n := 3 + g.r.Intn(4)
+	for i := 0; i < n; i++ {
+		v := pair[g.r.Intn(2)]
+		if i < 2 {
+			v = pair[i]
+		}
+		var hdr Hdr
+		if v != "" {
+			hdr = Hdr{{f, v}}
+		}
+		rp := g.cacheableReply(at, f, 3600)
+		h.Ops = append(h.Ops, Op{Op: "req", AtNs: at, Method: "GET", URL: url, Hdr: hdr, Replies: []Reply{rp}})
+		at += pick(g, int64(1), 5, 30) * sec
+	}
+	return h
 }
 
 func (g *G) next() *History {
